@@ -35,6 +35,7 @@ RULE = ("(a) the same call repeated 3x in one process must give bitwise "
         "with >=2 distinct problems sharing objects and >=100 observed "
         "context switches / a nested run; distinct = interleaving hash")
 RULE += ("  Also: per-call non-default constants (improve_tcg, ratios, factors) in repeated / concurrent / nested workloads; objectives that are exactly zero on a ball around x0; process-wide warnings.filters compared before / after batches of 32 concurrent calls.")
+RULE += (" Unknown option names (caller's dict unchanged); raising user functions in debug mode; numpy errstate / print options in the process state that is compared.")
 ASSUMPTIONS = [
     "thread schedules are those the GIL produces with a 1 us switch interval "
     "plus injected yields; no free-threaded build available",
